@@ -749,21 +749,13 @@ func (h *handler) addHandlerContext(messages ...*Message) {
 	for i, msg := range messages {
 		ctx := msg.Context()
 
-		if h.name != "" {
-			ctx = context.WithValue(ctx, handlerNameKey, h.name)
-		}
-		if h.publisherName != "" {
-			ctx = context.WithValue(ctx, publisherNameKey, h.publisherName)
-		}
-		if h.subscriberName != "" {
-			ctx = context.WithValue(ctx, subscriberNameKey, h.subscriberName)
-		}
-		if h.subscribeTopic != "" {
-			ctx = context.WithValue(ctx, subscribeTopicKey, h.subscribeTopic)
-		}
-		if h.publishTopic != "" {
-			ctx = context.WithValue(ctx, publishTopicKey, h.publishTopic)
-		}
+		// empty values are set as well: a message that went through another handler before
+		// must not keep reporting that handler's values
+		ctx = context.WithValue(ctx, handlerNameKey, h.name)
+		ctx = context.WithValue(ctx, publisherNameKey, h.publisherName)
+		ctx = context.WithValue(ctx, subscriberNameKey, h.subscriberName)
+		ctx = context.WithValue(ctx, subscribeTopicKey, h.subscribeTopic)
+		ctx = context.WithValue(ctx, publishTopicKey, h.publishTopic)
 		messages[i].SetContext(ctx)
 	}
 }
